@@ -91,6 +91,66 @@ fn reap(mut p: Proc) -> String {
     format!("{status:?} {tail}")
 }
 
+/// A (re-spawnable) worker child; one case in flight at a time.
+pub struct Worker<'c> {
+    cfg: &'c PoolCfg,
+    proc: Option<Proc>,
+}
+
+impl<'c> Worker<'c> {
+    pub fn new(cfg: &'c PoolCfg) -> Self {
+        Worker { cfg, proc: None }
+    }
+
+    /// Executes one case; `Err` = the worker process could not be started (machinery problem).
+    pub fn call(&mut self, case: &Value) -> Result<Outcome, String> {
+        if self.proc.is_none() {
+            self.proc = Some(spawn(self.cfg).map_err(|e| format!("cannot spawn worker: {e}"))?);
+        }
+        let p = self.proc.as_mut().unwrap();
+        let line = serde_json::to_string(case).unwrap();
+        let sent = writeln!(p.stdin, "{line}").and_then(|_| p.stdin.flush());
+        if sent.is_err() {
+            return Ok(Outcome::Died(reap(self.proc.take().unwrap())));
+        }
+        Ok(match p.rx.recv_timeout(self.cfg.per_case) {
+            Ok(l) => match serde_json::from_str::<Value>(&l) {
+                Ok(v) => {
+                    if v.get("exit").and_then(Value::as_bool) == Some(true) {
+                        // the worker announced that it terminates after this reply
+                        let _ = reap(self.proc.take().unwrap());
+                    }
+                    if let Some(m) = v.get("panic").and_then(Value::as_str) {
+                        Outcome::Panic(m.to_string())
+                    } else {
+                        Outcome::Ok(v["ok"].clone())
+                    }
+                }
+                Err(_) => {
+                    let _ = reap(self.proc.take().unwrap());
+                    Outcome::Died(format!("garbled worker reply: {l}"))
+                }
+            },
+            Err(mpsc::RecvTimeoutError::Timeout) => {
+                let _ = reap(self.proc.take().unwrap());
+                Outcome::Timeout
+            }
+            Err(mpsc::RecvTimeoutError::Disconnected) => Outcome::Died(reap(self.proc.take().unwrap())),
+        })
+    }
+}
+
+impl Drop for Worker<'_> {
+    fn drop(&mut self) {
+        if let Some(p) = self.proc.take() {
+            drop(p.stdin);
+            let mut c = p.child;
+            let _ = c.kill();
+            let _ = c.wait();
+        }
+    }
+}
+
 /// Runs all cases; result i corresponds to case i. `None` = not executed (deadline).
 pub fn run_pool(cfg: &PoolCfg, cases: &[Value]) -> Result<Vec<Option<Outcome>>, String> {
     let next = AtomicUsize::new(0);
@@ -99,7 +159,7 @@ pub fn run_pool(cfg: &PoolCfg, cases: &[Value]) -> Result<Vec<Option<Outcome>>, 
     std::thread::scope(|s| {
         for _ in 0..cfg.procs.max(1) {
             s.spawn(|| {
-                let mut proc: Option<Proc> = None;
+                let mut w = Worker::new(cfg);
                 loop {
                     if let Some(d) = cfg.deadline {
                         if Instant::now() >= d {
@@ -113,48 +173,13 @@ pub fn run_pool(cfg: &PoolCfg, cases: &[Value]) -> Result<Vec<Option<Outcome>>, 
                     if i >= cases.len() {
                         break;
                     }
-                    if proc.is_none() {
-                        match spawn(cfg) {
-                            Ok(p) => proc = Some(p),
-                            Err(e) => {
-                                *err.lock().unwrap() = Some(format!("cannot spawn worker: {e}"));
-                                break;
-                            }
+                    match w.call(&cases[i]) {
+                        Ok(o) => out.lock().unwrap()[i] = Some(o),
+                        Err(e) => {
+                            *err.lock().unwrap() = Some(e);
+                            break;
                         }
                     }
-                    let p = proc.as_mut().unwrap();
-                    let line = serde_json::to_string(&cases[i]).unwrap();
-                    let sent = writeln!(p.stdin, "{line}").and_then(|_| p.stdin.flush());
-                    let outcome = if sent.is_err() {
-                        Outcome::Died(reap(proc.take().unwrap()))
-                    } else {
-                        match p.rx.recv_timeout(cfg.per_case) {
-                            Ok(l) => match serde_json::from_str::<Value>(&l) {
-                                Ok(v) => {
-                                    if let Some(m) = v.get("panic").and_then(Value::as_str) {
-                                        Outcome::Panic(m.to_string())
-                                    } else {
-                                        Outcome::Ok(v["ok"].clone())
-                                    }
-                                }
-                                Err(_) => Outcome::Died(format!("garbled worker reply: {l}")),
-                            },
-                            Err(mpsc::RecvTimeoutError::Timeout) => {
-                                let _ = reap(proc.take().unwrap());
-                                Outcome::Timeout
-                            }
-                            Err(mpsc::RecvTimeoutError::Disconnected) => {
-                                Outcome::Died(reap(proc.take().unwrap()))
-                            }
-                        }
-                    };
-                    out.lock().unwrap()[i] = Some(outcome);
-                }
-                if let Some(p) = proc.take() {
-                    drop(p.stdin);
-                    let mut c = p.child;
-                    let _ = c.kill();
-                    let _ = c.wait();
                 }
             });
         }
@@ -163,6 +188,17 @@ pub fn run_pool(cfg: &PoolCfg, cases: &[Value]) -> Result<Vec<Option<Outcome>>, 
         return Err(e);
     }
     Ok(out.into_inner().unwrap())
+}
+
+/// Called inside a worker: send the reply for the current case and terminate the process
+/// (used when the process state is no longer usable, e.g. after a detected deadlock).
+pub fn reply_and_exit(value: Value) -> ! {
+    let reply = serde_json::json!({ "ok": value, "exit": true });
+    let stdout = std::io::stdout();
+    let mut o = stdout.lock();
+    let _ = writeln!(o, "{}", serde_json::to_string(&reply).unwrap());
+    let _ = o.flush();
+    std::process::exit(0)
 }
 
 /// Entry point of a worker child.
